@@ -106,3 +106,13 @@ Definition wc_spec_violation (c : wcase) : bool :=
   end.
 Definition wc_check_all (cs : list wcase) : list Z * list Z :=
   (map (fun c => c_id (wc_case c)) (filter wc_mismatch cs), map (fun c => c_id (wc_case c)) (filter wc_spec_violation cs)).
+
+(* bodies read through a reader that fails part-way (Decode.v fr_violation): the request failed, or its rows are those of
+   ALL lines *)
+Definition wc_fr_violation (c : wcase) : bool :=
+  match wc_body c with
+  | Some b => fr_violation (with_any_body (wc_case c) b)
+  | None => false
+  end.
+Definition wc_fr_check_all (cs : list wcase) : list Z * list Z := ([], map (fun c => c_id (wc_case c)) (filter wc_fr_violation cs)).
+
